@@ -86,10 +86,10 @@ class Prepared:
                     self.rop['op'] = op['k']
                     self.rop['prop_id'] = prop
                     # what the same handle did before (see vlib.crash.warm_up); `repack` may remove the pack a repack_pack names
-                    prelude = [(op['b'] // 7) % 8, (op['b'] // 56) % 8][: 1 + op['b'] % 2]
+                    prelude = [(op['b'] // 7) % 12, (op['b'] // 84) % 12][: 1 + op['b'] % 2]
                     if op['k'] == 'repack_pack':
                         prelude = [p for p in prelude if p != 1]
-                    self.rop['prelude'] = [p for p in prelude if p % 8 not in (0, 6, 7)]
+                    self.rop['prelude'] = [p for p in prelude if 0 < p < 8]
         finally:
             world.close()
         if self.rop is not None:
